@@ -19,49 +19,76 @@ import ast
 from gridlint.core import AnalysisError
 
 
-def _world(repo, natom, npts):
+def _table(natom, missing):
+    """Radius table by atomic number; `missing`: atomic numbers without a tabulated radius (nan)."""
+    import sympy as sp
+    table = {z: (sp.nan if z in missing else sp.Symbol(f"rad{z}", positive=True)) for z in range(-1, 2 * natom + 3)}
+    return table
+
+
+def _atnums(natom):
+    # atomic numbers 3, 5, 7, ...: the two elements below each of them are in the table
+    return [3 + 2 * a for a in range(natom)]
+
+
+def _expected_radius(table, z):
+    import sympy as sp
+    if table[z] is not sp.nan:
+        return table[z]
+    if table[z - 1] is not sp.nan:
+        return table[z - 1]
+    return table[z - 2]
+
+
+def _world(repo, natom, npts, missing=()):
     import numpy as np
     import sympy as sp
     from gridlint import e10
     P = e10._obj_array([[sp.Symbol(f"p{n}{c}", real=True) for c in range(3)] for n in range(npts)])
     R = e10._obj_array([[sp.Symbol(f"R{a}{c}", real=True) for c in range(3)] for a in range(natom)])
-    atnums = e10.arr([a + 1 for a in range(natom)])
-    radii = {a + 1: sp.Symbol(f"rad{a}", positive=True) for a in range(natom)}
-    radii.update({0: sp.Symbol("rad_m1", positive=True), -1: sp.Symbol("rad_m2", positive=True)})
+    atnums = e10.np.array(_atnums(natom), dtype=int)
+    radii = _table(natom, set(missing))
 
     def switch(x, order=3):
+        # the switching polynomial is uninterpreted, but it depends on the order it is called with
         out = np.empty(x.shape, dtype=object)
         for idx in np.ndindex(x.shape):
             v = x[idx]
-            out[idx] = sp.nan if (v is sp.nan or v.has(sp.nan) or v.has(sp.zoo)) else sp.Function("S")(v)
+            out[idx] = sp.nan if (v is sp.nan or v.has(sp.nan) or v.has(sp.zoo)) else sp.Function("S")(v, sp.sympify(order))
         return out
 
     def alpha(radii_, cutoff=sp.Rational(9, 20)):
-        n = len(list(radii_))
-        return e10._obj_array([[sp.Integer(0) if a == b else sp.Symbol(f"al{a}{b}") for b in range(n)] for a in range(n)])
+        # the heteronuclear parameter is an uninterpreted function of the two radii it is computed from
+        rr = list(radii_)
+        n = len(rr)
+        return e10._obj_array([[sp.Integer(0) if a == b else sp.Function("AL")(rr[a], rr[b]) for b in range(n)] for a in range(n)])
     cls = e10.Obj("BeckeWeights", _switch_func=switch, _calculate_alpha=alpha)
-    obj = e10.Obj("becke", cls="BeckeWeights", _radii=radii, _order=3)
+    obj = e10.Obj("becke", cls="BeckeWeights", _radii=radii, _order=sp.Symbol("ORDER"))
     mod_funcs = {g.name: g.node for g in repo.funcs.values()
                  if g.module == "becke" and g.cls is None and g.parent is None and isinstance(g.node, ast.FunctionDef)}
     it = e10.Interp(mod_funcs, {"BeckeWeights": cls})
     obj.resolver = e10.class_resolver(repo, "BeckeWeights", obj, it)
+    cls.resolver = e10.class_resolver(repo, "BeckeWeights", obj, it)     # static helpers reached through the class name
     # the stubs take precedence over the real static methods
     obj.attrs["_switch_func"] = switch
     obj.attrs["_calculate_alpha"] = alpha
     return e10, it, obj, P, R, atnums
 
 
-def _cell(e10, P, R, natom, n, a):
+def _cell(e10, P, R, natom, n, a, missing=()):
     """P_a(point n) with the uninterpreted switch and alpha."""
     import sympy as sp
+    table = _table(natom, set(missing))
+    zs = _atnums(natom)
+    rad = [_expected_radius(table, z) for z in zs]
     dist = lambda x, y: sp.sqrt(sum((x[c] - y[c]) ** 2 for c in range(3)))
     tot = sp.Integer(1)
     for b in range(natom):
         if b == a:
             continue
         mu = (dist(R[a], P[n]) - dist(R[b], P[n])) / dist(R[a], R[b])
-        v = mu + sp.Symbol(f"al{a}{b}") * (1 - mu ** 2)
-        tot *= sp.Rational(1, 2) * (1 - sp.Function("S")(v))
+        v = mu + sp.Function("AL")(rad[a], rad[b]) * (1 - mu ** 2)
+        tot *= sp.Rational(1, 2) * (1 - sp.Function("S")(v, sp.Symbol("ORDER")))
     return tot
 
 
@@ -84,7 +111,7 @@ def _canon(expr, P, R, natom, npts):
     mapping = {}
     for ap in apps:
         if ap.func.__name__ == "S":
-            mapping[ap] = ("S", sp.cancel(ap.args[0]))
+            mapping[ap] = ("S", (sp.cancel(ap.args[0]),) + tuple(ap.args[1:]))
     return expr, mapping
 
 
@@ -118,39 +145,45 @@ def rule_unity(rep, repo):
         raise AnalysisError("anchor vanished: BeckeWeights.generate_weights / compute_atom_weight")
     here = gw.loc()
     n_ok = 0
-    for natom in (2, 3):
+    # 2 and 3 atoms with tabulated radii; 2 atoms where the radius of the second element is missing (nan) and the one of
+    # the element below it is used, or -- when that is missing too -- the one two below
+    for natom, missing in ((2, ()), (3, ()), (2, (5,)), (2, (5, 4))):
         npts = 2
         per_atom = []
+        cfg = f"{natom} atoms" + (f", no tabulated radius for Z in {list(missing)}" if missing else "")
         for a in range(natom):
-            e10, it, obj, P, R, atnums = _world(repo, natom, npts)
+            e10, it, obj, P, R, atnums = _world(repo, natom, npts, missing)
             w = _run("BeckeWeights.generate_weights", e10, it.call_def, gw.node, [obj, P, R, atnums], {"select": [a]}, {})
-            e10, it, obj, P, R, atnums = _world(repo, natom, npts)
+            e10, it, obj, P, R, atnums = _world(repo, natom, npts, missing)
             w2 = _run("BeckeWeights.compute_atom_weight", e10, it.call_def, caw.node, [obj, P, R, atnums, a], {}, {})
             if not hasattr(w, "shape") or w.shape != (npts,) or not hasattr(w2, "shape") or w2.shape != (npts,):
                 raise AnalysisError("BeckeWeights: the weight routines do not return one value per point")
             per_atom.append((w, w2))
         for n in range(npts):
-            cells = [_cell(e10, P, R, natom, n, a) for a in range(natom)]
+            cells = [_cell(e10, P, R, natom, n, a, missing) for a in range(natom)]
             norm_ = sum(cells)
             for a in range(natom):
                 want = cells[a] / norm_
                 if not _equal(per_atom[a][0][n], want, P, R, natom, npts):
                     rep.violation("R7.partition-of-unity", "becke.BeckeWeights.generate_weights", "normalised-cell-function",
-                                  f"{natom} atoms: the weight of atom {a} at a point is `{str(per_atom[a][0][n])[:160]}`; it must be the cell "
-                                  f"function P_a = prod_(b != a) (1 - S(v_ab))/2 divided by the sum of the cell functions of all atoms", here)
+                                  f"{cfg}: the weight of atom {a} at a point is `{str(per_atom[a][0][n])[:160]}`; it must be the cell "
+                                  f"function P_a = prod_(b != a) (1 - S(v_ab))/2 divided by the sum of the cell functions of all atoms, "
+                                  f"with the heteronuclear parameter computed from the radii of the two elements (the radius one or two "
+                                  f"elements below when none is tabulated)", here)
                     return
                 if not _equal(per_atom[a][1][n], want, P, R, natom, npts):
                     rep.violation("R7.partition-of-unity", "becke.BeckeWeights.compute_atom_weight", "normalised-cell-function",
-                                  f"{natom} atoms: compute_atom_weight of atom {a} is `{str(per_atom[a][1][n])[:160]}`, not P_a / sum_b P_b", caw.loc())
+                                  f"{cfg}: compute_atom_weight of atom {a} is `{str(per_atom[a][1][n])[:160]}`, not P_a / sum_b P_b with "
+                                  f"the same radii as the whole-grid route", caw.loc())
                     return
             tot = sum(per_atom[a][0][n] for a in range(natom))
             if not _equal(tot, sp.Integer(1), P, R, natom, npts):
                 rep.violation("R7.partition-of-unity", "becke.BeckeWeights.generate_weights", "sum",
-                              f"{natom} atoms: the weights of all atoms at one point add up to `{str(tot)[:120]}`, not 1", here)
+                              f"{cfg}: the weights of all atoms at one point do not add up to 1", here)
                 return
             n_ok += 1
-        rep.ok("R7.partition-of-unity", f"BeckeWeights[{natom} atoms]", here, "w_a = P_a / sum_b P_b, sum_a w_a = 1 (switch and alpha uninterpreted)")
-    rep.floor("R7 points", n_ok, 4)
+        rep.ok("R7.partition-of-unity", f"BeckeWeights[{cfg}]", here, "w_a = P_a / sum_b P_b, sum_a w_a = 1 (switch and alpha uninterpreted)")
+    rep.floor("R7 points", n_ok, 8)
 
 
 def rule_call(rep, repo):
@@ -179,3 +212,26 @@ def rule_call(rep, repo):
                           f"receives {'the weight of atom %d' % who[0] if who else 'a value that is no atomic weight at that point'}", here)
             return
     rep.ok("R8.own-atom-per-segment", "BeckeWeights.__call__[4 atoms, 5 points, 2 chunks]", here, "every point gets the weight of its own atom")
+    # both routes over several sectors with a selection that is not the identity: segment k belongs to atom select[k]
+    select = [2, 0, 3, 1]
+    owner_sel = [select[k] for k, s_ in enumerate(sizes) for _ in range(s_)]
+    for meth in ("generate_weights", "compute_weights"):
+        fdef = repo.resolve_method("BeckeWeights", meth)
+        if fdef is None:
+            continue
+        e10, it, obj, P, R, atnums = _world(repo, natom, npts)
+        out2 = _run(f"BeckeWeights.{meth}", e10, it.call_def, fdef.node, [obj, P, R, atnums],
+                    {"select": list(select), "pt_ind": e10.np.array(idx, dtype=int)}, {})
+        bad = not hasattr(out2, "shape") or out2.shape != (npts,)
+        for n in range(npts):
+            if bad:
+                break
+            cells = [_cell(e10, P, R, natom, n, a) for a in range(natom)]
+            bad = not _equal(out2[n], cells[owner_sel[n]] / sum(cells), P, R, natom, npts)
+        if bad:
+            rep.violation("R8.own-atom-per-segment", f"becke.BeckeWeights.{meth}", "segment",
+                          f"4 atoms, segments {idx} assigned to the atoms {select}: the points of segment k must receive the weight of "
+                          f"atom select[k]", fdef.loc())
+        else:
+            rep.ok("R8.own-atom-per-segment", f"BeckeWeights.{meth}[4 sectors, select {select}]", fdef.loc(),
+                   "segment k gets the weight of atom select[k]")
